@@ -96,6 +96,7 @@ type c08Spec struct {
 	GoMaxProcs int              `json:"gomaxprocs"`
 	FT         []c08FTRound     `json:"ft"`
 	Runs       []c08RunRound    `json:"runs"`
+	Ctx        []c08CtxRound    `json:"ctx,omitempty"` // shared-context rounds (c08_ctx.go)
 }
 
 type c08Call struct {
@@ -129,6 +130,7 @@ type c08Out struct {
 	Adapter *c08AdapterOut `json:"adapter,omitempty"`
 	FT      []c08FTOut     `json:"ft"`
 	Runs    []c08RunOut    `json:"runs"`
+	Ctx     []c08CtxOut    `json:"ctx,omitempty"`
 	Errors  []string       `json:"errors,omitempty"`
 }
 
@@ -629,6 +631,9 @@ func c08ChildMain(specPath string) int {
 	}
 	for _, r := range spec.Runs {
 		out.Runs = append(out.Runs, runC08Run(&spec, r))
+	}
+	for _, r := range spec.Ctx {
+		out.Ctx = append(out.Ctx, runC08Ctx(&spec, r))
 	}
 	enc := json.NewEncoder(os.Stdout)
 	if err := enc.Encode(&out); err != nil {
